@@ -1,8 +1,8 @@
 """C06 — text archive round trip preserves title, key order and every message."""
 from mir import fmt, walk, strip_refs, callee_names, norm
-from flow import enum_paths, PathLimit, variant_name
+from flow import enum_paths, PathLimit, variant_name, cond_truth
 from c04 import is_err_term
-from binser import root_of
+from binser import root_of, affine
 
 EXPLANATION = ("Codec duality per text-archive format: each string writer and reader is characterised from its MIR "
                "(encoding static, terminator width, padding modulus, BOM handling) and the (writer, reader) pair used "
@@ -48,8 +48,10 @@ def callee_set(body, facts, depth=0, seen=None):
 
 
 def characterise_writer(facts, wb):
-    """(encoding, unit_order, terminator_width, pad_modulus, pad_after_terminator) of a string writer
-    fn(&mut Vec<u8>, &str)."""
+    """(encoding, unit_order, terminator_width, pad_modulus, pad fill) of a string writer fn(&mut Vec<u8>, &str).
+    Recognised spellings: terminator by push(0) / extend_from_slice(&[0; k]); padding by a `while len % M != 0
+    { push(0) }` loop or by `resize(len + (M - len % M), 0)` under `len % M != 0`.  'unknown' carries the reason
+    when the bytes after the encoded text are produced some other way."""
     try:
         paths = enum_paths(wb)
     except PathLimit:
@@ -57,30 +59,95 @@ def characterise_writer(facts, wb):
     done = [p for p in paths if p.end == "ret" and is_err_term(p.ret) is False]
     if not done:
         return None
-    p = done[0]
     enc = None
-    zeros = 0
-    seen_extend = False
+    zeros = None
     pad_mod = None
-    for e in p.events:
-        if e["k"] != "call" or not e["callee"]:
-            continue
-        sh = e["callee"].rsplit("::", 1)[-1]
-        if sh in ("extend", "extend_from_slice", "append") and not seen_extend:
-            seen_extend = True
-            for x in walk(e["args"][1]):
-                if x[0] == "call" and x[1].startswith("mila::encoded_strings::"):
-                    enc = x[1]
-        elif sh == "push" and seen_extend and e["args"][1] == ("const", 0, "u8"):
-            zeros += 1
-    for (bb, term, vals, neg, dty) in p.conds:
-        for x in walk(term):
-            if x[0] == "bin" and x[1] == "Rem" and x[3][0] == "const":
-                pad_mod = x[3][1]
+    pad_zero = False
+    unknown = None
+    loops = [q for q in paths if q.end == "loop"]
+
+    def after_encoded(p):
+        """events after the first append of the encoded text"""
+        seen = False
+        out = []
+        e_enc = None
+        for e in p.events:
+            if e["k"] != "call" or not e["callee"]:
+                continue
+            sh = e["callee"].rsplit("::", 1)[-1]
+            if not seen and sh in ("extend", "extend_from_slice", "append"):
+                seen = True
+                for x in walk(e["args"][1]):
+                    if x[0] == "call" and x[1].startswith("mila::encoded_strings::"):
+                        e_enc = x[1]
+                continue
+            if seen:
+                out.append(e)
+        return e_enc, out
+    zs = set()
+    for p in done:
+        e_enc, evs = after_encoded(p)
+        enc = enc or e_enc
+        z = 0
+        rem_true = None
+        for (bb, term, vals, neg, dty) in p.conds:
+            ct = cond_truth((term, vals, neg, dty))
+            for x in walk(term):
+                if x[0] == "bin" and x[1] == "Rem" and x[3][0] == "const" and any(y[0] == "call" and y[1].endswith("::len") for y in walk(x[2])):
+                    if pad_mod is not None and pad_mod != x[3][1]:
+                        unknown = "two padding moduli"
+                    pad_mod = x[3][1]
+                    if ct and ct[0][0] == "bin" and ct[0][3][:2] == ("const", 0):
+                        rem_true = ((ct[0][1] == "Ne") == ct[1])
+        for e in evs:
+            sh = e["callee"].rsplit("::", 1)[-1]
+            a = e["args"]
+            if sh == "push" and a[1] == ("const", 0, "u8"):
+                z += 1
+            elif sh in ("extend_from_slice", "extend") and len(a) > 1:
+                src = strip_refs(a[1])
+                while src[0] == "cast":
+                    src = strip_refs(src[1])
+                if src[0] == "const" and isinstance(src[1], (bytes, bytearray)) and not any(src[1]):
+                    z += len(src[1])
+                elif src[0] == "agg" and src[1] == "array" and all(x == ("const", 0, "u8") for x in src[4]):
+                    z += len(src[4])
+                else:
+                    unknown = "bytes appended after the text from %s" % fmt(a[1])[:50]
+            elif sh == "resize" and len(a) == 3:
+                # closed-form padding: new length = len + (M - len % M) when len % M != 0
+                af = affine(a[1], None)
+                ok = False
+                if af is not None and rem_true:
+                    lens = [k for k in af[0] if k[0] == "call" and k[1].endswith("::len")]
+                    rems = [k for k in af[0] if k[0] == "bin" and k[1] == "Rem" and k[3][:2] == ("const", pad_mod)]
+                    if len(lens) == 1 and len(rems) == 1 and len(af[0]) == 2 and af[0][lens[0]] == 1 and af[0][rems[0]] == -1 and af[1] == pad_mod:
+                        ok = True
+                if ok:
+                    pad_zero = pad_zero or a[2] == ("const", 0, "u8")
+                    if a[2] != ("const", 0, "u8"):
+                        unknown = None
+                        pad_zero = False
+                else:
+                    unknown = "resize to %s" % fmt(a[1])[:60]
+            elif sh in ("push", "insert", "truncate", "extend", "append"):
+                unknown = "buffer changed by %s(%s)" % (sh, ", ".join(fmt(x)[:20] for x in a[1:]))
+        zs.add(z)
+    if len(zs) == 1:
+        zeros = zs.pop()
+    else:
+        unknown = unknown or "terminator width differs between paths: %s" % sorted(zs)
     # the padding loop pushes zeros too
-    loop = [q for q in paths if q.end == "loop"]
-    pad_push = any(e["k"] == "call" and e["callee"] and e["callee"].endswith("::push") and e["args"][1] == ("const", 0, "u8")
-                   for q in loop for e in q.events[len(p.events) - 1:])
+    for q in loops:
+        for (bb, term, vals, neg, dty) in q.conds:
+            for x in walk(term):
+                if x[0] == "bin" and x[1] == "Rem" and x[3][0] == "const" and any(y[0] == "call" and y[1].endswith("::len") for y in walk(x[2])):
+                    pad_mod = x[3][1]
+        n0 = min(len(p.events) for p in done)
+        if any(e["k"] == "call" and e["callee"] and e["callee"].endswith("::push") and e["args"][1] == ("const", 0, "u8") for e in q.events[n0 - 1:]):
+            pad_zero = True
+    pad_push = pad_zero
+    zeros = zeros if zeros is not None else 0
     encoding = None
     units = None
     if enc:
@@ -108,7 +175,7 @@ def characterise_writer(facts, wb):
                                 order.append(x[2][1])
                 if order and order != sorted(order):
                     encoding += "(bytes swapped)"
-    return {"encoding": encoding, "terminator": zeros, "pad": pad_mod, "pad_pushes_zero": pad_push, "encoder": enc}
+    return {"encoding": encoding, "terminator": zeros, "pad": pad_mod, "pad_pushes_zero": pad_push, "encoder": enc, "unknown": unknown}
 
 
 def characterise_reader(facts, rb):
@@ -120,12 +187,32 @@ def characterise_reader(facts, rb):
     impl = None
     pad_mod = None
     skips = False
+    skip_unknown = None
     for p in paths:
         for e in p.events:
             if e["k"] == "call" and e["callee"] and e["callee"].startswith("mila::encoded_strings::") and e["callee"] != rb.name:
                 impl = e["callee"]
             if e["k"] == "call" and e["callee"] and e["callee"].endswith("::skip") and e["args"][1] == ("const", 1, "usize"):
                 skips = True
+            elif e["k"] == "call" and e["callee"] and e["callee"].endswith("::skip") and len(e["args"]) == 2:
+                # closed form: skip(M - tell % M) under tell % M != 0
+                af = affine(e["args"][1], None)
+                rem_true = None
+                m_ = None
+                for (bb, term, vals, neg, dty) in p.conds:
+                    ct = cond_truth((term, vals, neg, dty))
+                    if ct and ct[0][0] == "bin" and ct[0][3][:2] == ("const", 0) and ct[0][2][0] == "bin" and ct[0][2][1] == "Rem" and ct[0][2][3][0] == "const" \
+                            and any(y[0] == "call" and y[1].endswith("::tell") for y in walk(ct[0][2][2])):
+                        rem_true = ((ct[0][1] == "Ne") == ct[1])
+                        m_ = ct[0][2][3][1]
+                if af is not None and rem_true and len(af[0]) == 1 and af[1] == m_:
+                    (atom, coef), = af[0].items()
+                    if coef == -1 and atom[0] == "bin" and atom[1] == "Rem" and atom[3][:2] == ("const", m_) and any(y[0] == "call" and y[1].endswith("::tell") for y in walk(atom[2])):
+                        skips = True
+                    else:
+                        skip_unknown = fmt(e["args"][1])[:50]
+                else:
+                    skip_unknown = fmt(e["args"][1])[:50]
         for (bb, term, vals, neg, dty) in p.conds:
             for x in walk(term):
                 if x[0] == "bin" and x[1] == "Rem" and x[3][0] == "const" and any(y[0] == "call" and y[1].endswith("::tell") for y in walk(x[2])):
@@ -151,10 +238,19 @@ def characterise_reader(facts, rb):
             for (bb, t, vals, neg, dty) in p.conds:
                 if t[0] == "bin" and t[1] == "Eq" and t[3] == ("const", 0, "u8") and ((vals == (0,)) == neg):
                     zero_tests += 1
+                elif t[0] == "call" and t[1].rsplit("::", 1)[-1] == "eq" and len(t[2]) == 2 and ((vals == (0,)) == neg):
+                    # `unit == [0, 0]`
+                    for a in t[2]:
+                        a = strip_refs(a)
+                        if a[0] == "const" and isinstance(a[1], (bytes, bytearray)) and not any(a[1]):
+                            zero_tests += len(a[1])
+                        elif a[0] == "agg" and a[1] == "array" and all(x[:2] == ("const", 0) for x in a[4]):
+                            zero_tests += len(a[4])
             reads = len([e for e in p.events if e["k"] == "call" and e["callee"] and e["callee"].endswith("FnMut::call_mut")])
             term = (zero_tests, reads)
     return {"encoding": encoding, "terminator": term[0] if term else None, "reads_per_unit": term[1] if term else None,
-            "pad": pad_mod, "pad_skips": skips, "bom_sniffing": bom, "decoders": sorted(dec), "impl": impl}
+            "pad": pad_mod, "pad_skips": skips, "bom_sniffing": bom, "decoders": sorted(dec), "impl": impl,
+            "unknown": None if skips else skip_unknown}
 
 
 def run(facts, rep, ctx):
@@ -173,6 +269,8 @@ def run(facts, rep, ctx):
         return
     fv = {v["discr"]: v["name"] for v in fadt["variants"]}
 
+    indirect = set()
+
     def per_format(body, is_writer):
         """format -> {'title': set(callee), 'message': set(callee)} from the calls guarded by the format."""
         out = {n: {"title": set(), "message": set()} for n in fv.values()}
@@ -189,9 +287,20 @@ def run(facts, rep, ctx):
                     fmts = fmts - names if neg else fmts & names
             in_loop = False
             for e in p.events:
-                if e["k"] != "call" or not e["callee"]:
+                if e["k"] != "call":
                     continue
                 c = e["callee"]
+                if not c and e["val"][0] == "callind":
+                    # a call through a function pointer whose target is known on this path
+                    ft = strip_refs(e["val"][1])
+                    while ft[0] == "cast":
+                        ft = strip_refs(ft[1])
+                    if ft[0] == "fn":
+                        c = ft[1]
+                    else:
+                        indirect.add(body.name)
+                if not c:
+                    continue
                 if c.endswith("Iterator>::next") or c.endswith("::tell"):
                     in_loop = True
                 is_codec = (is_writer and c.startswith("mila::text_archive::write_")) or \
@@ -213,6 +322,9 @@ def run(facts, rep, ctx):
             key = "%s/%s" % (f, role)
             if not ws and not rs:
                 continue
+            if (len(ws) != 1 and ser.name in indirect) or (len(rs) != 1 and par.name in indirect):
+                rep.inconc(R1, "%s: codec called through a pointer that is not resolved" % key)
+                continue
             if len(ws) != 1 or len(rs) != 1:
                 rep.violation(R1, ser.name if len(ws) != 1 else par.name, "pairing:" + key, "%s: writer uses %s, reader uses %s" % (key, sorted(ws) or "nothing", sorted(rs) or "nothing"), "%s:%s" % (ser.file, ser.line))
                 continue
@@ -226,6 +338,9 @@ def run(facts, rep, ctx):
             wc, rc = wchar[wn], rchar[rn]
             if not wc or not rc or wc["encoding"] is None or rc["encoding"] is None:
                 rep.inconc(R1, "%s: writer/reader not characterised (%s / %s)" % (key, wc, rc))
+                continue
+            if wc.get("unknown"):
+                rep.inconc(R1, "%s: writer %s: %s" % (key, wn.rsplit("::", 1)[-1], wc["unknown"]))
                 continue
             if wc["encoding"] != rc["encoding"]:
                 rep.violation(R1, par.name, "encoding:" + key, "%s is written as %s (%s) but read as %s (%s)" % (key, wc["encoding"], wn.rsplit("::", 1)[-1], rc["encoding"], rn.rsplit("::", 1)[-1]), "%s:%s" % (par.file, par.line))
@@ -245,6 +360,8 @@ def run(facts, rep, ctx):
         rp = partner[0]["pad"] if partner else None
         if wc["pad"] == rp == 4 and wc["pad_pushes_zero"] and all(p["pad_skips"] for p in partner):
             rep.ok(R2, {"writer": wn, "pad": wc["pad"]})
+        elif wc.get("unknown") or wc["pad"] is None or rp is None or any(p.get("unknown") for p in partner):
+            rep.inconc(R2, "%s: padding not recognised (writer %s, reader %s; %s)" % (wn.rsplit("::", 1)[-1], wc["pad"], rp, wc.get("unknown")))
         else:
             rep.violation(R2, wn, "padding", "%s pads to %s (zero fill: %s), its reader skips to %s: the next message would not start where the reader resumes" % (wn.rsplit("::", 1)[-1], wc["pad"], wc["pad_pushes_zero"], rp), "")
     # ---- R06.4 BOM -----------------------------------------------------------------------------
@@ -337,6 +454,7 @@ def label_rules(facts, rep, R3, ser, par):
         rep.inconc(R3, "from_archive: too many paths")
         return
     bad = None
+    unk = None
     seen = 0
     for p in rpaths:
         evs = [e for e in p.events if e["k"] == "call" and e["callee"]]
@@ -352,12 +470,27 @@ def label_rules(facts, rep, R3, ser, par):
             k = evs[i]["args"][1]
             v = evs[i]["args"][2]
             if not any(x[0] == "call" and x[1].endswith("<impl [T]>::first") for x in walk(k)):
-                bad = "the key is %s, not the first label at the message's address" % fmt(k)[:60]
+                if any(x == evs[lab[0]]["val"] for x in walk(k)):
+                    unk = "the key is derived from the labels in a way that is not recognised: %s" % fmt(k)[:60]
+                else:
+                    bad = "the key is %s, not the first label at the message's address" % fmt(k)[:60]
             if not any(x == evs[msg[0]]["val"] for x in walk(v)):
                 bad = "the stored message is not the one just read"
             tgt = strip_refs(evs[i]["args"][0])
             if not (tgt[0] == "field" and tgt[2] == "entries"):
-                bad = "inserts into %s" % fmt(evs[i]["args"][0])[:40]
+                # ... or a local map that is moved into the `entries` field of the returned archive
+                moved = False
+                for q in rpaths:
+                    if q.end == "ret" and q.ret and q.ret[0] == "agg":
+                        for x in walk(q.ret):
+                            if x[0] == "agg" and x[1] == "adt" and (x[2] or "").endswith("TextArchive"):
+                                names = (facts.adts.get(x[2]) or {}).get("variants", [{}])[0].get("fields", [])
+                                for fi, fv_ in enumerate(x[4]):
+                                    fname = names[fi]["name"] if fi < len(names) and isinstance(names[fi], dict) else None
+                                    if norm(strip_refs(fv_)) == norm(tgt) and fname in (None, "entries"):
+                                        moved = True
+                if not moved:
+                    bad = "inserts into %s" % fmt(evs[i]["args"][0])[:40]
     # loop condition: tell() < size()
     cond_ok = False
     for p in rpaths:
@@ -368,6 +501,8 @@ def label_rules(facts, rep, R3, ser, par):
         rep.inconc(R3, "from_archive: message loop not recognised")
     elif bad:
         rep.violation(R3, par.name, "reader-order", bad, "%s:%s" % (par.file, par.line))
+    elif unk:
+        rep.inconc(R3, "from_archive: " + unk)
     elif not cond_ok:
         rep.violation(R3, par.name, "reader-bound", "the message loop is not bounded by cursor < archive size", "%s:%s" % (par.file, par.line))
     else:
